@@ -237,3 +237,29 @@ func emitAllTreeCode(repo string) (string, error) {
 		skip: map[string]string{"getBinds": "a constant"},
 	})
 }
+
+func init() { emitters["StaticTreeCode"] = emitStaticTreeCode }
+
+// Gen/StaticTreeCode.lean: `staticTree.match` (tree.go) — the segment's canonical text without its leading "/" compared with
+// the request's segment. `t.segment.String()` is Gen/SegStringCode's `String` (its value; that the call fills the
+// segment's memo is not represented, as in Gen/RouteStringCode).
+func emitStaticTreeCode(repo string) (string, error) {
+	return translateType(repo, codeCfg{
+		pkg:          "./internal/route",
+		recvType:     "staticTree",
+		namespace:    "Flamego.Gen.StaticTreeCode",
+		imports:      []string{"Flamego.Code.GoSem", "Flamego.Code.LibRoute", "Flamego.Code.LibTree", "Flamego.Gen.SegStringCode"},
+		stringBytes:  true,
+		opaqueFields: true,
+		ptrOption:    true,
+		structs:      []string{"baseTree"},
+		types: map[string]string{"net/http.Header": "Lib.Header",
+			"github.com/flamego/flamego/internal/route.Leaf":     "Lib.Leaf",
+			"github.com/flamego/flamego/internal/route.Tree":     "Lib.Tree",
+			"*github.com/flamego/flamego/internal/route.Segment": "(Option Flamego.Gen.SegStringCode.Segment)"},
+		lib: map[string]string{"(*github.com/flamego/flamego/internal/route.Segment).String": "segString"},
+		prelude: "/-- `s.String()` on the segment the tree points to: the value Gen/SegStringCode's `String` returns -/\n" +
+			"def segString (s : Option Flamego.Gen.SegStringCode.Segment) : Bytes := (Flamego.Gen.SegStringCode.String' (GoSem.deref s)).1\n",
+		skip: map[string]string{"getBinds": "a constant"},
+	})
+}
